@@ -665,6 +665,84 @@ def stage_resend(ctx: Ctx):
                                                   {**rec, 'got': got_after[:12], 'expected': ref_after[:12]})
 
 
+def stage_entry_send(ctx: Ctx):
+    """send(True) at the ENTRY yield of a node (on='enter' / on='both'), with and without a replacement of the node at that yield: its (new) children are
+    walked next, all of them whatever `recurse` says, the node is not entered a second time, is left exactly once after them when on='both', and the walk
+    then goes on with what follows the node; forwards and backwards, recurse True and False, walk root the tree or the parent"""
+    import fst
+
+    def label(g):
+        n, l = g if isinstance(g, tuple) else (g, None)
+        return [type(n.a).__name__ if n.a is not None else None, n.src if n.a is not None and n.loc else None, l]
+
+    def inside(n, top):
+        while n is not None:
+            if n is top:
+                return True
+            n = n.parent
+        return False
+    for src in RESEND_PROGS:
+        probe = fst.FST(src, 'exec')
+        tpaths = [probe.child_path(f, True) for f in probe.walk() if isinstance(f.a, ast.expr) and isinstance(getattr(f.a, 'ctx', ast.Load()), ast.Load)
+                  and not isinstance(f.parent.a, (ast.JoinedStr, ast.FormattedValue)) and not isinstance(f.a, (ast.Starred, ast.Slice))]
+        for tp in tpaths:
+            for wroot in ('tree', 'parent'):
+                for on in ('enter', 'both'):
+                    for back in (False, True):
+                        for recurse in (True, False):
+                            for action in ('none', 'replace'):
+                                root = fst.FST(src, 'exec')
+                                T = root.child_from_path(tp)
+                                W = root if wroot == 'tree' else T.parent
+                                if recurse is False and T.parent is not W:
+                                    continue
+                                kw = dict(on=on, back=back, recurse=recurse)
+                                ref_root = fst.FST(src, 'exec')
+                                RT = ref_root.child_from_path(tp)
+                                RW = ref_root if wroot == 'tree' else RT.parent
+                                if action == 'replace':
+                                    RT.replace('[x, y.z]')
+                                ref_items = list(RW.walk(**kw))
+                                ref_after = None
+                                for i, g in enumerate(ref_items):
+                                    n = g[0] if isinstance(g, tuple) else g
+                                    if n is RT:
+                                        j = i + 1
+                                        while j < len(ref_items) and inside(ref_items[j][0] if isinstance(ref_items[j], tuple) else ref_items[j], RT):
+                                            j += 1
+                                        ref_after = [label(x) for x in ref_items[j:]]
+                                        break
+                                if ref_after is None:
+                                    continue
+                                rec = {'src': src, 'target': tp, 'walk_root': wroot, 'walk_kwargs': {k_: repr(v) for k_, v in kw.items()}, 'at_entry_yield': action + ' + send(True)'}
+                                gen = W.walk(**kw)
+                                got, expected, sent = [], None, False
+                                try:
+                                    steps = 0
+                                    for g in gen:
+                                        steps += 1
+                                        if steps > 500:
+                                            raise RuntimeError('walk does not end')
+                                        n, l = g if isinstance(g, tuple) else (g, False)
+                                        if sent:
+                                            got.append(label(g))
+                                        elif n is T and not l:
+                                            if action == 'replace':
+                                                T.replace('[x, y.z]')
+                                            gen.send(True)
+                                            sent = True
+                                            expected = [label(x) for x in T.walk(on=on, back=back, self_=False)] + ([label((T, True))] if on == 'both' else [])
+                                except Exception as e:
+                                    ctx.violation(f'entry-send-raise|{on}|{type(e).__name__}', 'the iteration raised', {**rec, 'error': repr(e)[:300]})
+                                    continue
+                                ctx.tick(('entry-send', src, tp, wroot, on, back, recurse, action), f'entry-send:{on}:{action}:recurse={recurse}')
+                                if not sent:
+                                    continue
+                                if got != expected + ref_after:
+                                    ctx.violation(f'entry-send|{on}|{action}|recurse={recurse}', "send(True) at the entry yield of a node: what follows is not its (new) children, then the node on leaving "
+                                                  "(on='both'), then what follows the node", {**rec, 'got': got[:16], 'expected': (expected + ref_after)[:16]})
+
+
 def run(ctx: Ctx):
     ctx.rule = ('random walks (on enter/leave/both, back, all filters, self_, recurse, scope) over corpus programs; at ~30% of the entered nodes one mutation: replace or remove the node '
                 'itself, one of up to 3 ancestors, the previous or the next sibling; ~12% send(False/True). Checked: no exception, bounded number of steps, every yielded node attached and '
@@ -679,6 +757,7 @@ def run(ctx: Ctx):
     run_guarded(ctx, stage_oracle, progs)
     run_guarded(ctx, stage_scope_targets)
     run_guarded(ctx, stage_resend)
+    run_guarded(ctx, stage_entry_send)
     run_guarded(ctx, stage_slice_removals)
     run_guarded(ctx, stage_search_send)
     run_guarded(ctx, stage_leave_corr, progs)
